@@ -43,6 +43,7 @@ struct Args {
     filter: Option<String>,
     l: Option<usize>,
     solver: String,
+    mutate_oracle: u32,
 }
 
 fn parse_args() -> Args {
@@ -58,6 +59,7 @@ fn parse_args() -> Args {
         filter: None,
         l: None,
         solver: "z3".into(),
+        mutate_oracle: 0,
     };
     let v: Vec<String> = std::env::args().collect();
     let mut i = 1;
@@ -75,6 +77,7 @@ fn parse_args() -> Args {
             "--filter" => a.filter = Some(val()),
             "--len" => a.l = val().parse().ok(),
             "--solver" => a.solver = val(),
+            "--mutate-oracle" => a.mutate_oracle = val().parse().unwrap_or(0),
             x => panic!("unknown argument {x}"),
         }
         i += 2;
@@ -100,7 +103,7 @@ fn val_json(tb: &term::TB, v: &spec::Val, m: &term::Model) -> serde_json::Value 
 
 fn run_item(item: &Item, resolve: &Resolve, sizes: &SizeAlign, args: &Args, idx: usize) -> serde_json::Value {
     let l = args.l.unwrap_or(if args.tier == "thorough" { 3 } else { 2 });
-    let cx = Ctx { resolve, sizes, p: item.p, l, canon: item.canon };
+    let cx = Ctx { resolve, sizes, p: item.p, l, canon: item.canon, mutate: args.mutate_oracle };
     let ty = item.func.params.first().map(|p| p.ty);
     let built = match (item.prop, item.family.as_str()) {
         ("C01", "lower-mem") => props::c01_lower_mem(&cx, &ty.unwrap()),
@@ -302,7 +305,7 @@ fn main() {
         }
     };
     let mut items: Vec<Item> = Vec::new();
-    let spec4 = spec::Spec { resolve: &built.resolve, p: 4, l: 2 };
+    let spec4 = spec::Spec { resolve: &built.resolve, p: 4, l: 2, mutate: 0 };
     for (ty, expr, f) in &built.type_funcs {
         let t = f.params[0].ty;
         let canon_modes: &[bool] = if matches!(args.prop.as_str(), "C04") { &[false] } else { &[false, true] };
